@@ -633,8 +633,10 @@ class GibbsTempo(BaseAPIClass):
             # initialising precomputes two steps
             step, state = self._backend_instance.initialise()
             self._init_dynamics()
+            # the backend propagates the rows of its initial data (identity):
+            # its arrays are the transposed propagated operators
             for ii, state in enumerate(self._backend_instance.data):
-                self._dynamics.add(self._time(ii), state)
+                self._dynamics.add(self._time(ii), state.T)
             #  dynamics now has three entries including initial state
 
         # the backend is at step `n_steps - 1` when the computation is complete
@@ -647,7 +649,7 @@ class GibbsTempo(BaseAPIClass):
             for i in range(num_step):
                 prog_bar.update(i + 2)
                 step, state = self._backend_instance.compute_step()
-                self._dynamics.add(self._time(step+1), state)
+                self._dynamics.add(self._time(step+1), state.T)
             prog_bar.update(num_step + 2)
 
         return self._dynamics
